@@ -70,7 +70,9 @@ def gen_histories(seed, n, max_ops=8, max_rows=20):
 
 def suite_hist_api(seed, tier):
     n = 150 if tier == "quick" else 4000
-    hs = gen_histories(seed, n, max_ops=10, max_rows=24) + gen_switch(seed, n // 5)
+    rng = random.Random(seed + 31)
+    labelled = [hist.gen_history(rng, max_ops=7, max_rows=16, user_labels=True) for _ in range(n // 6)]
+    hs = gen_histories(seed, n, max_ops=10, max_rows=24) + gen_switch(seed, n // 5) + labelled
     return _run("hist-api", hs, walk=False)
 
 
